@@ -120,6 +120,23 @@ class EnumV:
         return self.name
 
 
+class EnumChoice:
+    """an enumeration literal overloaded by several enumeration types (e.g. `state_0` of two state
+    machines in one architecture); resolved by the type of the context (LRM overload resolution)"""
+
+    def __init__(self, alts):
+        self.alts = alts
+
+    def pick(self, tyname):
+        for a in self.alts:
+            if a.ty == tyname:
+                return a
+        raise VhdlTypeError(f"enumeration literal {self.alts[0].name} is not a literal of type {tyname}")
+
+    def __repr__(self):
+        return f"{self.alts[0].name}?"
+
+
 class Arr:
     __slots__ = ("ty", "elems")
 
@@ -303,7 +320,9 @@ class Design:
                 scope.bind(d["name"], ("type", ty))
                 scope.decl_order.append((d["name"], "type"))
                 for i, lit in enumerate(d["lits"]):
-                    scope.bind(lit, ("enumlit", EnumV(d["name"], i, lit)))
+                    old = scope.lookup(lit)
+                    prev = list(old[1]) if isinstance(old, tuple) and old[0] == "enumlit" else []
+                    scope.bind(lit, ("enumlit", prev + [EnumV(d["name"], i, lit)]))
                     scope.decl_order.append((lit, "enumlit"))
             elif k == "arraytype":
                 l, r = self._const(d["l"]), self._const(d["r"])
@@ -518,6 +537,8 @@ class Design:
                     raise VhdlTypeError(f"width mismatch: {v.width} bits assigned to {ty.width()}-bit {what}")
                 return Vec(ty.t[1], v.bits, ty.t[2], ty.t[3])
         elif tag == "enum":
+            if isinstance(v, EnumChoice):
+                return v.pick(ty.t[1])
             if isinstance(v, EnumV) and v.ty == ty.t[1]:
                 return v
         elif tag == "arr":
@@ -560,7 +581,7 @@ class Design:
                 self._note_read(b, pr)
                 return self._read_ref(b, pr)
             if b[0] == "enumlit":
-                return b[1]
+                return b[1][0] if len(b[1]) == 1 else EnumChoice(b[1])
             raise VhdlTypeError(f"{e[1]} is not a value")
         if k == "agg":
             return Agg([(None if c is None else self._eval(c, scope, pr), self._eval(v, scope, pr)) for c, v in e[1]])
@@ -779,6 +800,10 @@ class Design:
             if op in ("=", "/="):
                 return cmp(a.v, b.v)
             return cmp(order.index(a.v), order.index(b.v))
+        if isinstance(a, EnumChoice) and isinstance(b, EnumV):
+            a = a.pick(b.ty)
+        if isinstance(b, EnumChoice) and isinstance(a, EnumV):
+            b = b.pick(a.ty)
         if isinstance(a, EnumV) and isinstance(b, EnumV):
             if a.ty != b.ty:
                 raise VhdlTypeError("comparison of different enumeration types")
@@ -1078,6 +1103,8 @@ class Design:
             if cv.width != sel.width:
                 raise VhdlTypeError(f"case choice of width {cv.width} for selector of width {sel.width}")
             return cv.bits == sel.bits
+        if isinstance(cv, EnumChoice) and isinstance(sel, EnumV):
+            cv = cv.pick(sel.ty)
         if type(sel) is not type(cv):
             raise VhdlTypeError(f"case choice {cv!r} for selector {sel!r}")
         return sel == cv
